@@ -447,6 +447,20 @@ def rule_c20_atomic(prog: Program, col: Collector) -> None:
                   construct=f"foreign-temp:{w.how}",
                   necessity="a temporary file on another file system cannot be renamed atomically onto the destination",
                   rule="A2")
+    uname_param = ("param", saver.positional_params()[1]) if len(saver.positional_params()) > 1 else None
+    for w in m.writes:
+        if w.kind == "sibling" and uname_param is not None and w.ref.qual == saver.qual and has_subterm(w.path, uname_param):
+            col.check(False, w.ref.where(w.ev.node), w.ref.short,
+                      f"the temporary file's name is derived from the destination only, not from the run name (found {short(w.path, 70)})", construct="temp-name-from-run-name",
+                      necessity="a run name is an arbitrary string: raw it makes an invalid or nested path (`sweep/lr-0.1/run-1`: the save raises and the run is never stored), "
+                                "encoded it can BE the destination (`--unique-name data` stages into data.json itself: opened with 'w' the results file is truncated in place)", rule="A2")
+    links = [e for q in m.functions for rr in [prog.find_func(q)] if rr is not None for e in fterms(prog, rr).calls()
+             if is_global(e.func, "os.link", "os.symlink", "shutil.move") or (e.name in ("hardlink_to", "symlink_to", "link_to") and e.recv is not None)]
+    for e in links:
+        col.check(False, saver.where(e.node), saver.short, f"the completed temporary file is installed by one atomic replace, not by {short(e.func, 30)} + unlink",
+                  construct="install-by-link",
+                  necessity="link + unlink is two steps: a death in between leaves the temporary NAME as a second link to the results file's inode - the next save opens that name "
+                            "with 'w' and truncates the results file in place, and os.replace between two links of one inode does nothing", rule="A3")
     for w in m.writes:
         if w.kind == "sibling" and getattr(w, "fresh", None) is False:
             col.check(False, w.ref.where(w.ev.node), w.ref.short, f"the temporary file is created fresh (truncating or exclusive open; found {w.how})", construct="temp-not-fresh",
@@ -874,6 +888,13 @@ def rule_c19_output_roundtrip(prog: Program, col: Collector) -> None:
         src_ok = has_subterm(v, ("index", dparam, ("const", field))) and not has_subterm(v, ("index", dparam, ("const", other)))
         col.check(src_ok, r_where, rname, f"restored '{field}' is built from the stored '{field}' entry",
                   construct=f"reader-{field}", necessity="gap and action matrices must not be crossed on read-back")
+    # the matrices come back in the shape they were stored in
+    reshapes = [e for e in rf.calls() if (e.name in ("reshape", "ravel", "flatten", "squeeze", "transpose", "swapaxes") and e.recv is not None)
+                or is_global(e.func, "numpy.reshape", "numpy.ravel", "numpy.squeeze", "numpy.transpose", "numpy.atleast_2d", "numpy.atleast_1d", "numpy.vstack", "numpy.hstack", "numpy.concatenate")]
+    col.check(not reshapes, rf.ref.where(reshapes[0].node) if reshapes else r_where, rname,
+              "from_json rebuilds the stored matrices as they are (no reshape / squeeze / transpose on the way back)", construct="reader-reshapes",
+              necessity="the best-states search stores a 3-D action record (size x repetition x step): `reshape(len(a), -1)` is the identity for the 2-D records of solve / eval / greedy "
+                        "and flattens that one - what is read back is not what the search produced")
     # metadata: run_type written, func dropped; reader restores func from run_type
     mf = fterms(prog, meths["metadata"])
     pops = [e for e in mf.calls("pop") if e.args and e.args[0] == ("const", "func")]
